@@ -138,12 +138,13 @@ func (m *FloodSub) Execute(ctx context.Context) error {
 			// }
 		}
 		m.incSessions = nil
-		m.mtx.Unlock() // intentional mtx hold-break
 		initSet = nil
 
+		// keep holding mtx: the initial set sent above and the sweep below
+		// must see the same set of channels, or a channel released in
+		// between is announced to the new peers and never retracted.
 		var xmitPeers []*streamHandler
 		var subChanges []*SubscriptionOpts
-		m.mtx.Lock()
 		// sweep empty channels
 		for chid, chm := range m.channels {
 			if len(chm) == 0 {
